@@ -474,6 +474,7 @@ func (x *Exec) analyzeLoops(fn *ssa.Function) {
 // source-level locals (through debug references).
 func (x *Exec) scopeVars(st *State, fr *Frame) map[string]Val {
 	vars := map[string]Val{}
+	localNames := map[string]bool{}
 	if fr.fn == x.fn {
 		for k, v := range x.entryVars {
 			vars[k] = v
@@ -514,6 +515,27 @@ func (x *Exec) scopeVars(st *State, fr *Frame) map[string]Val {
 			vars[id.Name] = st.loadVal(v.L[0], pt.Elem())
 		} else {
 			vars[id.Name] = v
+		}
+		localNames[id.Name] = true
+	}
+	// local(T): the unique source-level local variable of type T in scope, whatever it is called
+	byType := map[string][]string{}
+	for n := range localNames {
+		isParam := false
+		for _, p := range fr.fn.Params {
+			if p.Name() == n {
+				isParam = true
+			}
+		}
+		if isParam {
+			continue
+		}
+		k := "local:" + typeKey(vars[n].T)
+		byType[k] = append(byType[k], n)
+	}
+	for k, ns := range byType {
+		if len(ns) == 1 {
+			vars[k] = vars[ns[0]]
 		}
 	}
 	return vars
